@@ -80,8 +80,12 @@ def pick_idents(r, n, pool=None, avoid_snake_collisions=False):
 
 def rand_fields(r, kind, nmax=3, types=None, generics=None, distinct_types=False):
     types = list(types or SAFE_TYPES)
-    if generics in ("T", "Tw", "TU", "aT", "TN", "aTw", "Tdef", "TNdef", "aTwd", "TwU"):
+    if generics in ("T", "Tw", "TU", "aT", "TN", "aTw", "Tdef", "TNdef", "aTwd", "TwU", "NT"):
         types.append("T")
+    if generics == "Tnd":
+        types += ["OptT", "VecT"]
+    if generics == "NT":
+        types.append("CG")
     if generics == "TwU":
         types.append("U")
     if generics == "aTwd":
@@ -118,7 +122,7 @@ def ensure_generics_used(r, spec):
     g = spec.generics
     need = {"T": ["T"], "Tw": ["T"], "TU": ["T", "U"], "a": ["RefStr"], "aT": ["RefStr", "T"], "N": ["CG"], "TN": ["T", "CG"],
             "aTw": ["RefStr", "T"], "I": ["Item"], "aI": ["RefItem"], "Tdef": ["T"], "TNdef": ["T", "CG"],
-            "aTwd": ["RefStr", "T"], "TwU": ["T", "U"]}.get(g, [])
+            "aTwd": ["RefStr", "T"], "TwU": ["T", "U"], "NT": ["T", "CG"], "Tnd": ["OptT"]}.get(g, [])
     used = {f.ty for v in spec.variants for f in v.fields}
     missing = [t for t in need if t not in used]
     if not missing:
